@@ -372,6 +372,23 @@ def _rng_path(root, key, depth):
   return -1
 
 
+def _loose(a, b):
+  """same leaves; a 0-d numeric leaf may differ in dtype (a numpy float64 0-d array accumulates in float64 where the
+  Python-float / jax state accumulates in float32) when the value agrees to float32 rounding"""
+  if len(a[0]) != len(b[0]):
+    return False
+  for x, y in zip(a[0], b[0]):
+    if x == y:
+      continue
+    if x == 'deleted' or y == 'deleted' or x[1] != () or y[1] != ():
+      return False
+    u, v = float(np.frombuffer(x[2], np.dtype(x[0]))[0]), float(np.frombuffer(y[2], np.dtype(y[0]))[0])
+    tol = 2e-2 if min(np.dtype(x[0]).itemsize, np.dtype(y[0]).itemsize) <= 2 else 1e-6     # a float16 / bfloat16 running sum is coarse
+    if x[0] == y[0] or not (abs(u - v) <= tol * max(1.0, abs(u))):      # float64 vs float32 (vs float16) accumulation of the same sum
+      return False
+  return True
+
+
 def _same_out(o, s, d, values_only=False):
   same = tiny.same_values if values_only else tiny.same_snapshot
   return same(o[0], tiny.snapshot(s)) and same(o[1], tiny.snapshot(d))
@@ -490,6 +507,31 @@ def run(case):
       if r == case['branch']:
         restored = _serialise(state, case.get('ser', 'pickle'))
         post.append(tiny.same_values(tiny.snapshot(state), tiny.snapshot(restored)))
+    # STATES WITH WRITABLE NUMPY LEAVES (e.g. restored from a checkpoint with tree_map(np.array, state)): 0-d arrays
+    # included, Python scalars kept where the state has them.  `x += y` on such a leaf adds IN PLACE.
+    obs['numpy_leaves'] = []
+    import jax as _jx
+    for j in sorted({0, min(case['branch'] + 1, nr - 1)}) if nr else []:
+      rec = {'round': j}
+      try:
+        for kind in ('array', 'scalar'):
+          conv = (lambda l: np.array(l)) if kind == 'array' else \
+                 (lambda l: (float(l) if isinstance(l, float) or (hasattr(l, 'shape') and l.shape == () and 'float' in str(getattr(l, 'dtype', ''))) and is_agg else np.array(l)))
+          ns = _jx.tree_util.tree_map(conv, states[j])
+          before = tiny.snapshot(ns)
+          sa, da = _call(name, obj, ns, clients_of(j), is_agg)
+          oa = (tiny.snapshot(sa), tiny.snapshot(da))
+          rec[kind + '_input_same'] = tiny.same_snapshot(before, tiny.snapshot(ns))
+          sb, db = _call(name, obj, ns, clients_of(j), is_agg)
+          rec[kind + '_repeat_same'] = _same_out(oa, sb, db, True) and tiny.same_snapshot(before, tiny.snapshot(ns))
+          rec[kind + '_equals_jax_run'] = _loose(outs[j][0], oa[0]) and _loose(outs[j][1], oa[1])
+          rec[kind + '_result_kept'] = tiny.same_values(oa[0], tiny.snapshot(sa))
+          if j + 1 < nr:       # continue from the result of the numpy-leaf call
+            sc, dc = _call(name, obj, _jx.tree_util.tree_map(conv, sa), clients_of(j + 1), is_agg)
+            rec[kind + '_continue_same'] = _loose(outs[j + 1][0], tiny.snapshot(sc)) and _loose(outs[j + 1][1], tiny.snapshot(dc))
+      except Exception as ex:
+        rec['err'] = type(ex).__name__ + ': ' + str(ex)[:150]
+      obs['numpy_leaves'].append(rec)
     # ERROR RECOVERY: calls that fail half-way (the cohort source raises after 0 / 1 / n-1 clients; a client whose batches
     # raise), the exception caught by the caller; then the SAME object, asked the recorded valid question again, must
     # answer as before (state, diagnostics, num_bits), and the state it was given must be untouched
@@ -686,6 +728,18 @@ def oracle(case, obs):
     if obs.get('err_empty_cohort'):
       return [(n + '.empty-cohort-raises', f'{n}: apply() on an empty client selection raised {obs["err"]}')]
     return [(n + '.raises', f'{n}: apply raised {obs["err"]}')]
+  for rec in obs.get('numpy_leaves', []):
+    if rec.get('err'):
+      out.append((n + '.raises', f'{n}: apply() from a state with numpy leaves raised {rec["err"]}'))
+      continue
+    for kind in ('array', 'scalar'):
+      what = 'writable numpy arrays' if kind == 'array' else 'Python scalars / numpy arrays'
+      if not rec.get(kind + '_input_same', True):
+        out.append((n + '.input-state-changed', f'{n} round {rec["round"]}: a server state whose leaves are {what} changed value during apply()'))
+      if not rec.get(kind + '_repeat_same', True) or not rec.get(kind + '_result_kept', True):
+        out.append((n + '.not-repeatable', f'{n} round {rec["round"]}: from a state whose leaves are {what}, a second identical apply() differs (or the first result changed)'))
+      if not rec.get(kind + '_equals_jax_run', True) or not rec.get(kind + '_continue_same', True):
+        out.append((n + '.restore-diverges', f'{n} round {rec["round"]}: a state whose leaves are {what} (as restored from a checkpoint) continues differently from the jax-array state of the same value'))
   for rec in obs.get('recovery', []):
     what = f'a call whose {"cohort source raised after %d clients" % rec["k"] if rec["kind"] == "iter" else "client batches raised"}'
     if not rec['answer_same']:
